@@ -47,7 +47,7 @@ def hash (j : Json) : Except String Json := do
   let specB16 : Json := if accept then jcps (hexLower40 (hashVal stored)) else Json.null
   return jobj [("model", jobj [("err", jerr r.1), ("state", jopt jcps r.2), ("base16", b16)]),
                ("spec", jobj [("accept", jbool accept), ("state", jopt jcps specState), ("base16", specB16)]),
-               ("hyp", jbool (NoFold v))]
+               ("hyp", jbool true)]
 
 /-- `c14.history`: a history of assignments. -/
 def history (j : Json) : Except String Json := do
@@ -57,30 +57,45 @@ def history (j : Json) : Except String Json := do
     let v ← getCps o "v"
     stepOf e v
   let r := runHash prior ops
-  let hyp := ops.all fun | .xt v => NoFold v | .infohash v => NoFold v
   return jobj [("model", jobj [("errs", jarr (r.1.map jerr)), ("state", jopt jcps r.2)]),
-               ("hyp", jbool hyp)]
+               ("hyp", jbool true)]
 
 def jobs : UseObs → Json
   | .assigned e => jobj [("err", jerr e)]
-  | .converted r => jobj [("base16", jexc jcps r)]
+  | .converted r w => jobj [("base16", jexc jcps r), ("withInfo", jbool w)]
+  | .fetched e r k => jobj [("fetchErr", jerr e), ("result", jbool r), ("consulted", jnat k)]
   | .unset => jobj [("unset", jbool true)]
 
-/-- `c14.use`: a history of assignments and conversions (`entry` = xt | infohash | torrent) on one
-    object: model (`runUse`) and specification (`specUse`). -/
+def servedOf (s : Json) : Except String Served := do
+  let k ← getStr s "kind"
+  match k with
+  | "connError" => pure Served.connError
+  | "unreadable" => pure Served.unreadable
+  | "torrent" => do pure (Served.torrent (← getCps s "infohash") (← getBool s "nonEmpty"))
+  | _ => throw "served kind"
+
+/-- `c14.use`: a history of assignments, conversions and downloads on one object
+    (`entry` = xt | infohash | torrent | getinfo {validate, served}): model (`runUse`) and
+    specification (`specUse`); `priorInfo` = infohash of metadata the object already holds. -/
 def use (j : Json) : Except String Json := do
   let prior ← getOptCps j "prior"
+  let priorInfo ← getOptCps j "priorInfo"
   let ops ← (← getArr j "ops").mapM fun o => do
     let e ← getStr o "entry"
     if e == "torrent" then pure UseOp.convert
+    else if e == "getinfo" then do
+      let served ← (← getArr o "served").mapM servedOf
+      pure (UseOp.fetch (← getBool o "validate") served)
     else do
       let v ← getCps o "v"
       pure (UseOp.assign (← stepOf e v))
-  let m := runUse prior ops
-  let s := specUse prior ops
-  let hyp := useNoFold ops && (match prior with | some p => validHash p | none => true)
-  return jobj [("model", jobj [("obs", jarr (m.1.map jobs)), ("state", jopt jcps m.2)]),
-               ("spec", jobj [("obs", jarr (s.1.map jobs)), ("state", jopt jcps s.2)]),
+  let st : MState := { hash := prior, info := priorInfo }
+  let m := runUse st ops
+  let s := specUse st ops
+  let hyp := useValidated ops && decide (StateOk st)
+  let jst (x : MState) : Json := jobj [("hash", jopt jcps x.hash), ("info", jopt jcps x.info)]
+  return jobj [("model", jobj [("obs", jarr (m.1.map jobs)), ("state", jopt jcps m.2.hash), ("full", jst m.2)]),
+               ("spec", jobj [("obs", jarr (s.1.map jobs)), ("state", jopt jcps s.2.hash), ("full", jst s.2)]),
                ("hyp", jbool hyp)]
 
 /-- `c14.xl`: value = null | {"int": i} | {"raise": true} -/
@@ -109,7 +124,8 @@ def urls (j : Json) : Except String Json := do
              jobj [("err", jerr r1.1), ("state", jopt jcps r1.2)]
     | _ => Json.null
   return jobj [("model", jobj [("err", jerr r.1), ("state", jarr (r.2.map jcps)), ("single", single)]),
-               ("spec", jobj [("accept", jbool (vs.all isUrl))]), ("hyp", jbool true)]
+               ("spec", jobj [("accept", jbool (vs.all (urlAccepts isUrl))),
+                              ("state", jarr ((keepFirst (vs.map plusForSpace)).map jcps))]), ("hyp", jbool true)]
 
 /-- `c14.getinfo` -/
 def getinfo (j : Json) : Except String Json := do
@@ -123,13 +139,7 @@ def getinfo (j : Json) : Except String Json := do
     | [s, n] => do pure ((← cpsOfJson s), (← cpsOfJson n))
     | _ => throw "tr: pairs expected"
   let validate ← getBool j "validate"
-  let served ← (← getArr j "served").mapM fun s => do
-    let k ← getStr s "kind"
-    match k with
-    | "connError" => pure Served.connError
-    | "unreadable" => pure Served.unreadable
-    | "torrent" => do pure (Served.torrent (← getCps s "infohash") (← getBool s "nonEmpty"))
-    | _ => throw "served kind"
+  let served ← (← getArr j "served").mapM servedOf
   let urls := torrentUrls ih { xs := xs, as_ := as_, ws := ws, tr := tr }
   let res := getInfo validate ih served 0
   let jres : Json := match res with
